@@ -65,6 +65,11 @@ struct carquet_batch_reader {
     /* Memory-mapped data */
     uint8_t* mmap_data;
     size_t mmap_size;
+
+    /* Set when a batch failed after some of its column readers had already
+     * advanced: the columns no longer stand at the same row, so no further
+     * batch can be assembled from them. */
+    carquet_status_t failed;
 };
 
 /* ============================================================================
@@ -247,6 +252,11 @@ carquet_status_t carquet_batch_reader_next(
     /* batch_reader and batch are nonnull per API contract */
     carquet_error_t err = CARQUET_ERROR_INIT;
     int32_t num_row_groups = carquet_reader_num_row_groups(batch_reader->reader);
+
+    if (batch_reader->failed != CARQUET_OK) {
+        *batch = NULL;
+        return batch_reader->failed;
+    }
 
     /* Check if we need to move to next row group */
     if (batch_reader->current_row_group < 0 ||
@@ -516,6 +526,7 @@ carquet_status_t carquet_batch_reader_next(
 
     if (read_error) {
         carquet_row_batch_free(new_batch);
+        batch_reader->failed = CARQUET_ERROR_DECODE;
         return CARQUET_ERROR_DECODE;
     }
 
